@@ -85,34 +85,75 @@ for _umn in (False, True):
         REF[(_p, _umn)] = _fresh(_p, _umn)
 
 
-def body_damaged(p: int, umn: bool, k: int, age: int, T: int) -> bool:
-    """A fresh-enough cache file exists but unpickling fails with exception class k."""
+def body_damaged(p: int, umn: bool, k: int, age: int, T: int, s: int = -1) -> bool:
+    """A fresh-enough cache file exists but unpickling fails with exception class k.
+    s = -1: the file is damaged from the start (pre-made file, nothing intact).
+    s >= 0: the real savecache writes the file first; then it is cut so that only the first s pickled
+    objects it wrote are intact and reading on raises exception k (with one object per file -- the
+    shipped format -- only s = 0 is possible; a format of several objects can be cut between them)."""
     cfg = _cfg(umn, T)
     nodes = _nodes()
     cachesel = "/d/" + cfg.get("handlers.dir.DirHandler", "cachefile")
-    nodes[cachesel] = mv.File(b"PICK", mtime=1000)
+    if s < 0:
+        nodes[cachesel] = mv.File(b"PICK", mtime=1000)
     vfs = mv.MemVFS(cfg, nodes)
     ps = dl.PickleStub()
-    ps.load_exc = EXC[k]
-    dirmod = dl.install_dir_env(vfs, 1000 + age, ps)
+    dirmod = dl.install_dir_env(vfs, 1000, ps)
     vfs.on_write = lambda sel, chunks: vfs.nodes.__setitem__(sel, mv.File(b"PICKLE", mtime=dirmod.time.t))
     try:
         try:
+            if s >= 0:
+                r0 = _request(p, cfg)  # writes the cache file through the real savecache
+                hx.require(r0 == REF[(p, umn)], "C11:reply-differs-from-uncached-listing", lambda: "first request %s umn=%s" % (dl.PROTO_NAMES[p], umn))
+                nobj = len(ps.store.get(cachesel, []))
+                if s >= nobj:
+                    return True  # nothing left to cut
+                ps.survive = s
+                hx.reset_lazies()
+            ps.load_exc = EXC[k]
+            dirmod.time.t = 1000 + age
             r = _request(p, cfg)
+        except hx.Violation:
+            raise
         except Exception as e:
             raise hx.Violation("C11:exception-escaped:%s" % type(e).__name__, "%s umn=%s injected=%s" % (dl.PROTO_NAMES[p], umn, EXC_NAMES[k]))
         # and the request after that one (the cache must not stay poisoned)
         hx.reset_lazies()
         ps.load_exc = None
+        ps.survive = None
         r2 = _request(p, cfg)
     finally:
         dl.restore_dir_env()
     if age < T:
         hx.reach()
     hx.require(r == REF[(p, umn)], "C11:reply-differs-from-uncached-listing",
-               lambda: "%s umn=%s injected=%s age=%d T=%d: %r" % (dl.PROTO_NAMES[p], umn, EXC_NAMES[k], age, T, r[:200]))
+               lambda: "%s umn=%s injected=%s age=%d T=%d intact objects=%d: %r" % (dl.PROTO_NAMES[p], umn, EXC_NAMES[k], age, T, s, r[:200]))
     hx.require(r2 == REF[(p, umn)], "C11:next-reply-differs-from-uncached-listing",
                lambda: "%s umn=%s injected=%s: %r" % (dl.PROTO_NAMES[p], umn, EXC_NAMES[k], r2[:200]))
+    return True
+
+
+def body_writer(p: int, umn: bool, had_old: bool) -> bool:
+    """How the real savecache writes: the property's damage model (a killed writer leaves a PREFIX
+    of the new bytes) holds only if the writer truncates the file when it opens it and writes the
+    payload through that one handle.  Checked on the access log of the in-memory VFS."""
+    cfg = _cfg(umn, 0)
+    nodes = _nodes()
+    cachesel = "/d/" + cfg.get("handlers.dir.DirHandler", "cachefile")
+    if had_old:
+        nodes[cachesel] = mv.File(b"OLD", mtime=5)
+    vfs = mv.MemVFS(cfg, nodes)
+    ps = dl.PickleStub()
+    dl.install_dir_env(vfs, 1000, ps)
+    try:
+        _request(p, cfg)
+    finally:
+        dl.restore_dir_env()
+    hx.reach()
+    opens = [op for (op, sel) in vfs.log if sel == cachesel and op.startswith("open:") and op != "open:rb"]
+    hx.require(opens == ["open:wb"], "C11:cache-writer-does-not-truncate-first", lambda: "cache file opened as %r (old file present: %s)" % (opens, had_old))
+    hx.require(len(ps.dumps) >= 1 and all(d == cachesel for d in ps.dumps), "C11:cache-payload-not-written-through-that-handle", lambda: "dumps=%r" % (ps.dumps,))
+    hx.require(all(f.closed for f in vfs.opened), "C11:cache-file-left-open", "")
     return True
 
 
@@ -138,6 +179,7 @@ def fn_prefix_sweep(dirs=("/pygopherd", "/gopherplus", "/"), full_e2e=("/pygophe
     seen = {}
     nload = ne2e = 0
     samples = []
+    loads_ok = []
 
     def ask(sel, cachetime):
         hx.reset_lazies()
@@ -156,6 +198,8 @@ def fn_prefix_sweep(dirs=("/pygopherd", "/gopherplus", "/"), full_e2e=("/pygophe
         # lifetime 0 still writes the cache (savecache is unconditional)
         image = open(cpath, "rb").read()
         ok_obj = pickle.loads(image)
+        if not isinstance(ok_obj, (list, tuple)):
+            ok_obj = [ok_obj]
         variants = [(i, image[:i]) for i in range(len(image))] + [("zeros", b"\0" * len(image))]
         for tag, data in variants:
             nload += 1
@@ -167,7 +211,7 @@ def fn_prefix_sweep(dirs=("/pygopherd", "/gopherplus", "/"), full_e2e=("/pygophe
                 if name not in allowed:
                     return {"status": "inconclusive", "detail": "stub contract too narrow: real pickle.load raised %s on %s[%s]" % (name, sel, tag)}
             else:
-                return {"status": "inconclusive", "detail": "a damaged cache (%s[%s]) loaded successfully as %r: the stub's outcome set misses this case" % (sel, tag, type(obj))}
+                loads_ok.append("a damaged cache (%s[%s]) loaded successfully as %r: the stub's outcome set misses this case" % (sel, tag, type(obj)))
         samples.append({"dir": sel, "cache_bytes": len(image), "entries": len(ok_obj), "variants": len(variants)})
         if sel in full_e2e:
             for tag, data in variants:
@@ -183,6 +227,8 @@ def fn_prefix_sweep(dirs=("/pygopherd", "/gopherplus", "/"), full_e2e=("/pygophe
                             "violations": [{"body": "harness.C11:replay_truncated", "kwargs": {"sel": sel, "cut": tag if isinstance(tag, int) else -1},
                                             "sig": "C11:real-truncated-cache:reply-differs"}]}
             os.unlink(cpath)
+    if loads_ok:
+        return {"status": "inconclusive", "detail": loads_ok[0]}
     return {"status": "discharged", "queries": nload + ne2e, "solver_s": 0.0, "twin": "n/a",
             "detail": "%d damaged images through the real pickle.load: outcomes %r, all inside the stub's set, none loads successfully; %d real requests on real damaged files equal the uncached reply"
                       % (nload, seen, ne2e),
@@ -229,14 +275,19 @@ def obligations(tier, seed):
             obs.append(Ob(
                 id="C11.1-damaged[%s,%s]" % ("UMN" if umn else "Dir", dl.PROTO_NAMES[p]),
                 body="harness.C11:body_damaged",
-                sig="p: int, umn: bool, k: int, age: int, T: int",
-                pre=["p == %d" % p, "umn == %s" % umn, "0 <= k < %d" % len(EXC), "0 <= age", "0 <= T"],
-                desc="%s via %s: a cache file of symbolic age exists and unpickling raises a symbolic one of %r; the reply (and the next one) equals the uncached listing"
+                sig="p: int, umn: bool, k: int, age: int, T: int, s: int",
+                pre=["p == %d" % p, "umn == %s" % umn, "0 <= k < %d" % len(EXC), "0 <= age", "0 <= T", "-1 <= s <= 3"],
+                desc="%s via %s: a cache file of symbolic age exists (pre-made, or written by the real savecache and then cut after a symbolic number of intact pickled objects) and unpickling raises a symbolic one of %r; the reply (and the next one) equals the uncached listing"
                      % ("UMNDirHandler" if umn else "DirHandler", dl.PROTO_NAMES[p], EXC_NAMES),
                 bounds="%d exception classes (symbolic), unbounded integer age and lifetime (symbolic); directory with link file overrides, an added link and a hidden entry" % len(EXC),
                 timeout=240,
                 functions=["handlers.dir.DirHandler.loadcache/prepare/getdirlist/savecache", "handlers.UMN.UMNDirHandler.prepare", "protocols.*.handle"],
             ))
+    for umn in (True, False):
+        obs.append(Ob(id="C11.4-writer-protocol[%s]" % ("UMN" if umn else "Dir"), body="harness.C11:body_writer", sig="p: int, umn: bool, had_old: bool",
+                      pre=["0 <= p <= 6", "umn == %s" % umn], timeout=240,
+                      desc="the real savecache opens the cache file once, truncating (mode wb), writes the payload through that handle and closes it - which is what makes 'a killed writer leaves a prefix' the right damage model; with and without an older cache file present",
+                      bounds="7 protocol forms x old cache present/absent (symbolic)", functions=["handlers.dir.DirHandler.savecache"]))
     obs.append(Ob(
         id="C11.3-prefix-sweep",
         body="harness.C11:fn_prefix_sweep",
